@@ -65,6 +65,23 @@ let mat_history r m =
 let out_res = function Ok () -> () | Exit -> Buffer.clear buf; first := true; put_w "EXIT"
   | OOB -> Buffer.clear buf; first := true; put_w "OOB" | Fuel -> Buffer.clear buf; first := true; put_w "FUEL"
 
+(* histories of calls in one process: `seq p obj_1 .. obj_p m call_1 .. call_m` (grammar: checks/C16.py).  A Vector argument is
+   `o i` (the live object i, which serves several calls: in the model an object is its value) or `l <list>` (a temporary) *)
+let rd_axref r pool =
+  match word r with
+  | "o" -> let i = integer r in List.nth pool i
+  | "l" -> list r
+  | s -> failwith ("unknown vector reference " ^ s)
+let rd_call r pool : float call =
+  match word r with
+  | "rot" -> let alpha = num r in let dim = integer r in let ax = rd_axref r pool in CRot (alpha, z_of_int dim, ax)
+  | "rotdef" -> let alpha = num r in let dim = integer r in CRotDefault (alpha, z_of_int dim)
+  | "sph" -> let rr = num r in let th = num r in let ph = num r in CSph (rr, th, ph)
+  | "spha" -> let rr = num r in let th = num r in let ph = num r in let ax = rd_axref r pool in CSphAxis (rr, th, ph, ax)
+  | "angle" -> let a = rd_axref r pool in let b = rd_axref r pool in CAngle (a, b)
+  | s -> failwith ("unknown call " ^ s)
+let put_answer = function AMat m -> put_mat m | AVec v -> put_fl v | ANum x -> put_f x
+
 let handler r =
   hist := false;
   let op = match word r with "hist" -> hist := true; word r | o -> o in
@@ -122,6 +139,14 @@ let handler r =
                let* m = mat_history r m in
                let* w = spherical_axis fops Float.hypot rr th (ph +. alpha) axis in
                Ok (put_fl (mvec fops m u); put_fl w))
+  | "seq" -> let p = integer r in let pool = List.init p (fun _ -> list r) in
+      let m = integer r in let calls = List.init m (fun _ -> rd_call r pool) in
+      (* the answers inside the history, then the answer a process gives that makes only this call *)
+      out_res (let* answers = calls_run fops Float.hypot calls in
+               put_i m; List.iter put_answer answers;
+               List.iter (fun c -> match calls_run fops Float.hypot [c] with
+                                   | Ok [a] -> put_answer a | _ -> put_w "FRESH_EXIT") calls;
+               Ok ())
   | "angle" ->
       out_res (let* a = rd_vec r in let* b = rd_vec r in let* x = angle fops a b in Ok (put_f x))
   | "cross" ->
